@@ -123,6 +123,7 @@ class Index:
         self.qname = {}        # id -> qualified name
         self.funcs = {}        # qname -> [nodes with body]
         self.records = {}      # normalized key -> node (complete definitions)
+        self.records_all = {}  # normalized key -> all specializations sharing it (const variants)
         self.enums = {}        # qname -> node
         self.first_to_def = {}  # declaration id -> definition node
         self.pattern = set()   # ids of dependent (uninstantiated) decls
@@ -184,6 +185,7 @@ class Index:
             self.qname[nid] = q
             if n.get('completeDefinition') and not dep:
                 self.records.setdefault(strip_const_deep(q), n)
+                self.records_all.setdefault(strip_const_deep(q), []).append(n)
             newctx = q + '::'
         elif kind == 'EnumDecl':
             q = ctx + (name or '_anon')
@@ -1733,11 +1735,15 @@ class Lowerer:
     def ctor_decl_of(self, e, t):
         """find the constructor decl a CXXConstructExpr calls, by signature"""
         sig = e.get('ctorType', {}).get('qualType')
-        rec = self.idx.records.get(t.key)
-        if rec is None:
+        recs = self.idx.records_all.get(t.key) or []
+        if not recs:
             return None
-        for c in rec.get('inner', []):
-            if c.get('kind') == 'CXXConstructorDecl' and c['type']['qualType'] == sig:
+        nsig = strip_const_deep(sig or '')
+        members = [c for rec in recs for c in rec.get('inner', [])]
+        exact = [c for c in members if c.get('kind') == 'CXXConstructorDecl' and c['type']['qualType'] == sig]
+        cands = exact or [c for c in members if c.get('kind') == 'CXXConstructorDecl' and strip_const_deep(c['type']['qualType']) == nsig]
+        for c in cands + [c for c in members if c.get('kind') == 'FunctionTemplateDecl']:
+            if c.get('kind') == 'CXXConstructorDecl':
                 d = self.idx.definition(c['id'])
                 if c.get('isImplicit') or c.get('explicitlyDefaulted'):
                     return None
@@ -1832,6 +1838,29 @@ class Lowerer:
         if t.key not in self.struct_copy_ok:
             self.struct_copy_ok.add(t.key)
             self.note('copy/move construction of %s lowered to struct copy' % t.key)
+
+    def e_CXXNewExpr(self, e):
+        t = self.ty(e['type'])          # pointer to T
+        if e.get('isArray') or t.kind != 'ptr':
+            raise Unsupported('array new at %s' % where(e))
+        et = t.to
+        ct = self.cty(et)
+        inits = [c for c in e.get('inner', []) if isinstance(c, dict) and c.get('kind')]
+        h = self.helper('cxx_new_%s' % mangle(ct),
+                        'static inline %s* cxx_new_%s(%s v) { %s* p = (%s*)malloc(sizeof(%s)); __CPROVER_assume(p != 0); *p = v; return p; }'
+                        % (ct, mangle(ct), ct, ct, ct, ct))
+        self.note('operator new lowered to malloc + initialisation (allocation never fails)')
+        if et.kind == 'rec' and (et.key or '').startswith('std::atomic<') and inits:
+            ie = self.strip(inits[0])
+            arg = ie['inner'][0] if ie.get('kind') == 'CXXConstructExpr' and ie.get('inner') else ie
+            return '%s((%s){%s})' % (h, ct, self.expr(arg))
+        if inits:
+            return '%s(%s)' % (h, self.expr(inits[0]))
+        raise Unsupported('new without initialiser at %s' % where(e))
+
+    def e_CXXDeleteExpr(self, e):
+        self.note('operator delete lowered to free()')
+        return 'free(%s)' % self.expr(e['inner'][0])
 
     def e_LambdaExpr(self, e):
         raise Unsupported('lambda expression in value position at %s (name it as a target)' % where(e))
